@@ -1392,6 +1392,13 @@ impl ErasedNode for Node {
         }
         if !was_necessary {
             self.became_necessary(state);
+        } else if let Some(Kind::MapRef(mapref)) = self.kind() {
+            // we are a map_ref node that is already linked and whose projection change has not been
+            // consumed yet (we are waiting to be recomputed): a map_ref parent linking to us only
+            // now has missed the child_changed notification
+            if mapref.did_change.get() {
+                p.map_ref_projection_unknown();
+            }
         }
         if let Some(Kind::Expert(expert)) = p.kind() {
             expert.run_edge_callback(child_index)
